@@ -6,8 +6,8 @@
    by a version newer than 0.2.1 (ver_gt_021: the trace-count field is in use), read_subplane and get_trace (fast path
    b1 = 4 and general path) return exactly the specification's cells of the requested window / trace and issue exactly the
    range reads of the blocks intersected; the reader reports the header's trace count and sample count; every volume-style
-   read is refused with the dimensionality error.  NOTE: on a 2D file get_trace IGNORES min_sample_id/max_sample_id
-   (the theorems hold for every lo hi and always return the whole trace) -- that is what the code does.
+   read is refused with the dimensionality error.  get_trace(i, lo, hi) returns exactly the samples lo..hi-1 of trace i
+   (None = whole trace) and refuses every other window (D31, fixed in /repo 359fe14).
 
    Writer side (GENERATED Gen/Producer2d.v + glue Model/Producer2d.v, codec `enc` abstract): the k-th unit code of the
    data section is enc of the 4x4 unit (xu, zu), unit_index2 H xu zu = k, of the section extended by replicating the
@@ -37,19 +37,33 @@ Theorem C09_block_offset : forall H, wf2v H = true -> forall x z,
 Proof. exact block_offset_spec. Qed.
 Print Assumptions C09_block_offset.
 
+(* get_trace(i, lo, hi): win_lo / win_hi are the effective window (None = from the first / to the last sample) *)
 Theorem C09_get_trace_fast : forall H, wf2v H = true -> forall mask_nth i lo hi ov, s_bs1 H = 4 -> 0 <= i < s_ntr H ->
-  exists v, rd_get_trace mask_nth H i lo hi ov = Return v /\ av_shape v = [s_ns H] /\
-    (forall z, 0 <= z < s_ns H -> av_cell v [z] = spec_cell2 H i z) /\
+  0 <= win_lo lo < win_hi H hi -> win_hi H hi <= s_ns H ->
+  exists v, rd_get_trace mask_nth H i lo hi ov = Return v /\ av_shape v = [win_hi H hi - win_lo lo] /\
+    (forall z, 0 <= z < win_hi H hi - win_lo lo -> av_cell v [z] = spec_cell2 H i (win_lo lo + z)) /\
     av_reads v = [(4096 * (i / 4 * nbz2 H), 4096 * nbz2 H)].
 Proof. exact get_trace_2d_fast. Qed.
 Print Assumptions C09_get_trace_fast.
 
 Theorem C09_get_trace_general : forall H, wf2v H = true -> forall mask_nth i lo hi ov, s_bs1 H <> 4 -> 0 <= i < s_ntr H ->
-  exists v, rd_get_trace mask_nth H i lo hi ov = Return v /\ av_shape v = [s_ns H] /\
-    (forall z, 0 <= z < s_ns H -> av_cell v [z] = spec_cell2 H i z) /\
+  0 <= win_lo lo < win_hi H hi -> win_hi H hi <= s_ns H ->
+  exists v, rd_get_trace mask_nth H i lo hi ov = Return v /\ av_shape v = [win_hi H hi - win_lo lo] /\
+    (forall z, 0 <= z < win_hi H hi - win_lo lo -> av_cell v [z] = spec_cell2 H i (win_lo lo + z)) /\
     av_reads v = map (fun z => (4096 * (i / s_bs1 H * nbz2 H + z), 4096)) (zrange 0 (nbz2 H)).
 Proof. exact get_trace_2d_general. Qed.
 Print Assumptions C09_get_trace_general.
+
+(* without a window the whole trace is meant *)
+Theorem C09_window_none : forall H, wf2v H = true -> win_lo None = 0 /\ win_hi H None = s_ns H.
+Proof. exact win_none. Qed.
+Print Assumptions C09_window_none.
+
+(* a window that is not 0 <= lo < hi <= n_samples is refused *)
+Theorem C09_get_trace_window_refused : forall H, wf2v H = true -> forall mask_nth i lo hi ov, 0 <= i < s_ntr H ->
+  ~ (0 <= win_lo lo < win_hi H hi /\ win_hi H hi <= s_ns H) -> rd_get_trace mask_nth H i lo hi ov = Raise IndexErr.
+Proof. exact get_trace_2d_window_oob. Qed.
+Print Assumptions C09_get_trace_window_refused.
 
 Theorem C09_counts : forall H, wf2v H = true ->
   rd_tracecount H = s_ntr H /\ rd_n_samples H = s_ns H /\ rd_init H = Return tt.
@@ -105,6 +119,11 @@ Theorem C09_detect_2d : forall u il0 xl0 il1 xl1 tc ni nx,
   (u = true /\ il0 = 0 /\ xl0 = 0 /\ il1 = 0 /\ xl1 = 0) \/ (u = false /\ (ni = 1 \/ nx = 1)).
 Proof. exact detect_2d. Qed.
 Print Assumptions C09_detect_2d.
+(* whenever a source is taken as 2D, its trace count is the file's trace count *)
+Theorem C09_detect_2d_count : forall u il0 xl0 il1 xl1 tc ni nx k,
+  detect_geometry u il0 xl0 il1 xl1 tc ni nx = G2d k -> k = tc.
+Proof. exact detect_2d_count. Qed.
+Print Assumptions C09_detect_2d_count.
 
 (* ---- write, then read ---- *)
 Theorem C09_write_then_read_2d : forall (sample code : Type) (zero : sample) (enc : list sample -> code)
@@ -123,5 +142,6 @@ Print Assumptions C09_write_then_read_2d.
 Example C09_nonvacuous :
   let H := hdr_of_list [2; 50; 0; 0; 4; 1; 16; 512; 2; 84; 2; 21; 4199] in
   wf2v H = true /\ (0 <= 13 < 19 /\ 19 <= s_ntr H /\ 0 <= 3 < 50 /\ 50 <= s_ns H) /\ s_bs1 H <> 4 /\
+  (0 <= win_lo (Some 3) < win_hi H (Some 47) /\ win_hi H (Some 47) <= s_ns H) /\ (0 <= win_lo None < win_hi H None /\ win_hi H None <= s_ns H) /\
   wfp2 7 9 4 4 2048 = true /\ wf2v (hdr_of_writes (mh2_writes 9 7 7 4 1 1 4 2048 3 4115)) = true.
 Proof. cbv zeta. repeat split; try (vm_compute; reflexivity); try (vm_compute; discriminate). Qed.
